@@ -1,6 +1,8 @@
 package ast
 
 import (
+	"bytes"
+	"encoding/json"
 	"fmt"
 	"regexp"
 	"time"
@@ -13,6 +15,18 @@ const NodeTypeOf = "typeOf"
 
 // JSONNode is the intermediate type between Node and JSON serialization
 type JSONNode map[string]interface{}
+
+// unmarshalJSONNode decodes data keeping numbers as json.Number,
+// so that int64 values outside the exact range of float64 (beyond 2^53) are not rounded.
+func unmarshalJSONNode(data []byte) (JSONNode, error) {
+	var props JSONNode
+	dec := json.NewDecoder(bytes.NewReader(data))
+	dec.UseNumber()
+	if err := dec.Decode(&props); err != nil {
+		return nil, err
+	}
+	return props, nil
+}
 
 // Type adds the Node type information
 func (j JSONNode) Type(typ string) JSONNode {
@@ -103,6 +117,16 @@ func (j JSONNode) Int64(field string) (int64, error) {
 		return 0, err
 	}
 
+	if jn, ok := n.(json.Number); ok {
+		if i, err := jn.Int64(); err == nil {
+			return i, nil
+		}
+		flt, err := jn.Float64()
+		if err != nil {
+			return 0, fmt.Errorf("field %s is not an integer value: %v", field, err)
+		}
+		return int64(flt), nil
+	}
 	num, ok := n.(int64)
 	if !ok {
 		flt, ok := n.(float64)
@@ -121,6 +145,13 @@ func (j JSONNode) Float64(field string) (float64, error) {
 		return 0, err
 	}
 
+	if jn, ok := n.(json.Number); ok {
+		flt, err := jn.Float64()
+		if err != nil {
+			return 0, fmt.Errorf("field %s is not a floating point value: %v", field, err)
+		}
+		return flt, nil
+	}
 	num, ok := n.(float64)
 	if !ok {
 		integer, ok := n.(int64)
